@@ -42,13 +42,12 @@ Proof.
   unfold str_of_int. destruct (pos_digits_spec (S (Z.to_nat (Z.log2 (Z.abs n)))) (Z.abs n) [] ltac:(lia)) as (ds & E & NE & Fd & Pd).
   { split; [lia|apply fuel_enough; lia]. }
   rewrite E, app_nil_r. destruct ds as [|c ds]; [congruence|]. inversion Fd as [|? ? Hc Hds]; subst. unfold is_digit in Hc.
+  assert (DP : forall r, drop_prefix 10 r = r) by (intros r; unfold drop_prefix; destruct r as [|a0 [|c0 [|d0 r']]]; auto; unfold prefix_letter; cbn [Z.eqb Pos.eqb andb orb]; rewrite andb_false_r; reflexivity).
   destruct (n <? 0) eqn:Neg.
-  - apply Z.ltb_lt in Neg. unfold parse_int. rewrite (Pd 0). f_equal. lia.
-  - apply Z.ltb_ge in Neg. unfold parse_int.
-    destruct (N.eq_dec c 45) as [->|N1]; [lia|]. destruct (N.eq_dec c 43) as [->|N2]; [lia|].
-    replace (match c with 45%N => _ | _ => _ end) with (parse_digits 10 (c :: ds) 0).
-    + rewrite (Pd 0). f_equal. lia.
-    + destruct c as [|p]; [reflexivity|]. do 6 (destruct p as [p|p|]; try reflexivity); try congruence; destruct ds; reflexivity.
+  - apply Z.ltb_lt in Neg. unfold parse_int. cbn [app N.eqb Pos.eqb]. unfold parse_unsigned. rewrite DP. rewrite (Pd 0). f_equal. lia.
+  - apply Z.ltb_ge in Neg. unfold parse_int. cbn [app].
+    destruct (N.eqb_spec c 45) as [->|N1]; [lia|]. destruct (N.eqb_spec c 43) as [->|N2]; [lia|].
+    unfold parse_unsigned. rewrite DP. rewrite (Pd 0). f_equal. lia.
 Qed.
 (* printing is injective: different integers print differently *)
 Corollary int_print_injective a b : str_of_int a = str_of_int b -> a = b.
